@@ -941,6 +941,80 @@ fn diff_history(dir: &str, masked: bool) -> Result<Vec<(String, Value, Value)>, 
 	Ok(trace)
 }
 
+/// A second reference history with the wallet closed and opened again in the middle of two
+/// transactions (a masked wallet gets a new token from every open_wallet): what was stored under the
+/// first token must serve under the second exactly as it does on the unmasked wallet.
+fn diff_history_reopen(dir: &str, masked: bool) -> Result<Vec<(String, Value, Value)>, String> {
+	Ctx::create(dir, "c14-A", "c14-B");
+	let data = a_data(dir);
+	let res = |r: Result<Value, Error>| -> Value {
+		match r {
+			Ok(v) => json!({ "Ok": v }),
+			Err(e) => json!({ "Err": err_kind(&e) }),
+		}
+	};
+	let proj = |c: &Ctx, slots: &[uuid::Uuid]| -> Value {
+		let opts = ProjOpts { slots: slots.to_vec(), heights: true, canon_ids: false };
+		dwallet::with(&c.a, |b| dwallet::project_backend(b, &data, c.a_mask.as_ref(), &opts)).unwrap()
+	};
+	let mut trace: Vec<(String, Value, Value)> = vec![];
+	let mut slots: Vec<uuid::Uuid> = vec![];
+	// session 1: a send is initiated and reserved, an invoice is issued
+	let (s1, i1) = {
+		let c = Ctx::open(dir, masked);
+		let oa = c.owner_a();
+		let t = c.a_mask.clone();
+		let t = t.as_ref();
+		for _ in 0..4 {
+			c.mine_a(1);
+			oa.retrieve_summary_info(t, true, 1).map_err(|e| format!("refresh: {}", e))?;
+		}
+		c.mine_b(4);
+		for _ in 0..3 {
+			c.mine_a(1);
+			oa.retrieve_summary_info(t, true, 1).map_err(|e| format!("refresh: {}", e))?;
+		}
+		let s1 = oa.init_send_tx(t, default_args(2 * GRIN)).map_err(|e| format!("init_send: {}", e))?;
+		slots.push(s1.id);
+		trace.push(("init_send_tx".into(), json!(format!("{:?}", s1.state)), proj(&c, &slots)));
+		let r = res(oa.tx_lock_outputs(t, &s1).map(|_| Value::Null));
+		trace.push(("tx_lock_outputs".into(), r, proj(&c, &slots)));
+		let i1 = oa.issue_invoice_tx(t, IssueInvoiceTxArgs { amount: 3 * GRIN, ..Default::default() }).map_err(|e| format!("issue_invoice: {}", e))?;
+		slots.push(i1.id);
+		trace.push(("issue_invoice_tx".into(), json!(format!("{:?}", i1.state)), proj(&c, &slots)));
+		drop(oa);
+		c.close()?;
+		(s1, i1)
+	};
+	// session 2 (new token for a masked wallet): both are completed
+	let c = Ctx::open(dir, masked);
+	let oa = c.owner_a();
+	let ob = Owner::new(c.b.clone(), None);
+	let t = c.a_mask.clone();
+	let t = t.as_ref();
+	trace.push(("reopened".into(), Value::Null, proj(&c, &slots)));
+	ob.retrieve_summary_info(c.tb(), true, 1).map_err(|e| format!("{}", e))?;
+	let s2 = c.b_receive(&s1).map_err(|e| format!("receive: {}", e))?;
+	let r = oa.finalize_tx(t, &s2);
+	let s3 = r.as_ref().ok().cloned();
+	trace.push(("finalize_tx(after reopen)".into(), res(r.map(|s| json!(format!("{:?}", s.state)))), proj(&c, &slots)));
+	if let Some(s3) = s3 {
+		let r = res(oa.post_tx(t, &s3, false).map(|_| Value::Null));
+		trace.push(("post_tx".into(), r, proj(&c, &slots)));
+	}
+	let i2 = ob.process_invoice_tx(c.tb(), &i1, default_args(0)).map_err(|e| format!("process_invoice: {}", e))?;
+	ob.tx_lock_outputs(c.tb(), &i2).map_err(|e| format!("{}", e))?;
+	let r = oa.finalize_tx(t, &i2);
+	trace.push(("finalize_tx(invoice, after reopen)".into(), res(r.map(|s| json!(format!("{:?}", s.state)))), proj(&c, &slots)));
+	c.mine_a(1);
+	let r = res(oa.retrieve_summary_info(t, true, 1).map(|r| json!({"total": r.1.total, "spendable": r.1.amount_currently_spendable, "locked": r.1.amount_locked, "awaiting_final": r.1.amount_awaiting_finalization})));
+	trace.push(("refresh".into(), r, proj(&c, &slots)));
+	drop(oa);
+	drop(ob);
+	c.close()?;
+	Ok(trace)
+}
+
 // ------------------------------------------------------------------------------------------
 // closed wallet
 
@@ -1045,9 +1119,10 @@ pub fn replay(payload: &Value) -> i32 {
 				0
 			}
 		}
-		"differential" => {
-			let m = diff_history(&format!("{}/c14-rm", root), true);
-			let u = diff_history(&format!("{}/c14-ru", root), false);
+		"differential" | "differential-reopen" => {
+			let reopen = payload["kind"] == "differential-reopen";
+			let m = if reopen { diff_history_reopen(&format!("{}/c14-rm", root), true) } else { diff_history(&format!("{}/c14-rm", root), true) };
+			let u = if reopen { diff_history_reopen(&format!("{}/c14-ru", root), false) } else { diff_history(&format!("{}/c14-ru", root), false) };
 			match (m, u) {
 				(Ok(m), Ok(u)) => {
 					let mut bad = false;
@@ -1324,6 +1399,41 @@ pub fn run(_args: &[String]) -> i32 {
 		}
 	}
 
+	// ---- differential with a close / open in the middle of two transactions
+	{
+		let rres = par_map(&[true, false], 2, |_, masked| {
+			diff_history_reopen(&format!("{}/c14-r{}", root, if *masked { "m" } else { "u" }), *masked)
+		});
+		match (&rres[0], &rres[1]) {
+			(Ok(m), Ok(u)) => {
+				if m.len() != u.len() {
+					pending.push(("C14/differential-reopen/history-length".to_owned(), format!("the history with a reopen has {} steps on the masked wallet and {} on the unmasked one", m.len(), u.len()), json!({"kind": "differential-reopen"})));
+				}
+				for (a, b) in m.iter().zip(u.iter()) {
+					diff_steps += 1;
+					diff_distinct.insert(hash_value(&a.2));
+					if a != b {
+						let which = if a.1 != b.1 { "result" } else { "projection" };
+						pending.push((
+							format!("C14/differential-reopen/{}/{}", which, a.0),
+							format!("after step {} of a history in which the wallet is closed and opened again, the masked wallet (right token of the new session) and the unmasked wallet with the same seed differ in {}: masked {} / unmasked {}", a.0, which, a.1, b.1).chars().take(900).collect(),
+							json!({"kind": "differential-reopen"}),
+						));
+						break;
+					}
+				}
+			}
+			(m, u) => {
+				let (m, u) = (m.as_ref().err().cloned(), u.as_ref().err().cloned());
+				if m.is_some() != u.is_some() {
+					pending.push(("C14/differential-reopen/history-fails-on-one-side".to_owned(), format!("the history with a reopen fails only on one side: masked {:?}, unmasked {:?}", m, u), json!({"kind": "differential-reopen"})));
+				} else {
+					return rep.finish(Some(format!("differential history with a reopen failed on both wallets: {:?} / {:?}", m, u)));
+				}
+			}
+		}
+	}
+
 	// ---- findings: replay twice (same verdict key from a fresh execution)
 	let mut seen = BTreeSet::new();
 	for (key, what, rp) in pending.iter() {
@@ -1371,6 +1481,32 @@ pub fn run(_args: &[String]) -> i32 {
 						v.push("C14/stale-token-accepted/get_rewind_hash".to_owned());
 					}
 					v
+				}
+				"differential-reopen" => {
+					let m = diff_history_reopen(&format!("{}/c14-rrm{}", root, n), true);
+					let u = diff_history_reopen(&format!("{}/c14-rru{}", root, n), false);
+					match (m, u) {
+						(Ok(m), Ok(u)) => {
+							let mut v: Vec<String> = m
+								.iter()
+								.zip(u.iter())
+								.find(|(a, b)| a != b)
+								.map(|(a, b)| format!("C14/differential-reopen/{}/{}", if a.1 != b.1 { "result" } else { "projection" }, a.0))
+								.into_iter()
+								.collect();
+							if m.len() != u.len() {
+								v.push("C14/differential-reopen/history-length".to_owned());
+							}
+							v
+						}
+						(m, u) => {
+							if m.is_err() != u.is_err() {
+								vec!["C14/differential-reopen/history-fails-on-one-side".to_owned()]
+							} else {
+								vec![]
+							}
+						}
+					}
 				}
 				_ => {
 					let m = diff_history(&format!("{}/c14-rm{}", root, n), true);
